@@ -26,14 +26,21 @@ struct Worker {
 
 fn spawn_worker(prop: &str) -> Worker {
     let exe = std::env::current_exe().expect("current_exe");
-    let mut child = Command::new(exe)
-        .arg("worker")
-        .arg(prop)
-        .stdin(Stdio::piped())
-        .stdout(Stdio::piped())
-        .stderr(Stdio::null())
-        .spawn()
-        .expect("spawn worker");
+    // spawning can fail transiently when the machine is busy (EAGAIN): retry
+    let mut attempt = 0;
+    let mut child = loop {
+        match Command::new(&exe).arg("worker").arg(prop).stdin(Stdio::piped()).stdout(Stdio::piped()).stderr(Stdio::null()).spawn() {
+            Ok(c) => break c,
+            Err(e) => {
+                attempt += 1;
+                if attempt > 50 {
+                    eprintln!("INFRA: cannot spawn worker: {e}");
+                    std::process::exit(2);
+                }
+                std::thread::sleep(Duration::from_millis(200));
+            }
+        }
+    };
     let stdin = child.stdin.take().unwrap();
     let stdout = child.stdout.take().unwrap();
     let (tx, rx) = mpsc::channel();
